@@ -384,4 +384,3 @@ func C12Sequential(r *ev.Run) (cov map[string]any) {
 		"rule":                          "sequential half: for each feature set {HASH_LOGS=SYNC (default), HASH_LOGS=DISABLED, HASH_LOGS=ASYNC} and every sequence of length<=depth of prior requests on the target ledger (single write, non-atomic bulk of 1 and 2, atomic bulk of 1 and 2, dry run only, failed single / bulk / atomic bulk, a prior import of logs 1..2), the real Import of logs exported from a same-features source is attempted with ids overlapping the existing logs, strictly later than them, and overlapping by one, from the live process and from a freshly attached one; oracle: once a non-dry-run write has been accepted, Import returns an error and the database dump (all tables except goose_db_version) is unchanged; an accepted import requires state initializing and existing logs all preceding the imported ones",
 	}
 }
-
